@@ -361,8 +361,9 @@ class Ref:
 
 
 class LifecycleAdapter(engine.Adapter):
-    def __init__(self, suts, rd=1, power=(0, 0), listener=False, init="default", api=True):
+    def __init__(self, suts, rd=1, power=(0, 0), listener=False, init="default", api=True, prefix=()):
         cat = catalog()["items"]
+        self.prefix = [tuple(e) for e in prefix]  # events applied by build(): the search starts from a non-initial state
         self.suts = [str(n) for n in suts]
         for n in self.suts:
             if n not in cat:
@@ -376,12 +377,13 @@ class LifecycleAdapter(engine.Adapter):
         self.api = bool(api)  # offer SoftwareManager.install/uninstall events for services the harness installed
         self.name = "c13-%s-rd%d-pw%d%d%s%s" % ("+".join(self.suts), self.rd, self.power[0], self.power[1],
                                                 "-listener" if self.listener else "",
-                                                "-" + self.init if self.init != "default" else "") + ("" if self.api else "-noapi")
+                                                "-" + self.init if self.init != "default" else "") + ("" if self.api else "-noapi") + (
+                                                    "-p%d" % len(self.prefix) if self.prefix else "")
         self._menu = self._make_menu()
 
     def params(self):
         return {"suts": self.suts, "rd": self.rd, "power": list(self.power), "listener": self.listener, "init": self.init,
-                "api": self.api}
+                "api": self.api, "prefix": [list(e) for e in self.prefix]}
 
     # ------------------------------------------------------------------ menu
     def _make_menu(self):
@@ -448,6 +450,8 @@ class LifecycleAdapter(engine.Adapter):
         object.__setattr__(nic, "send_frame", send_frame)
         s.start()
         self._instrument(s)
+        for ev in self.prefix:
+            self.apply(s, ev)
         return s
 
     def _bystander(self):
@@ -853,7 +857,7 @@ def _dedup(viols):
 # ----------------------------------------------------------------------------------------------------------------
 def make_adapter(p):
     return LifecycleAdapter(p["suts"], p.get("rd", 1), p.get("power", (0, 0)), p.get("listener", False), p.get("init", "default"),
-                            p.get("api", True))
+                            p.get("api", True), p.get("prefix", ()))
 
 
 def replay(doc):
@@ -912,6 +916,8 @@ def plan(tier):
             p.append((LifecycleAdapter([n], rd=1), 6, 80000, 1500))
             p.append((LifecycleAdapter([n], rd=2, power=(1, 1)), 6, 80000, 1500))
             p.append((LifecycleAdapter([n], rd=0, listener=True), 4, 30000, 1500))
+            if c["kind"] == "service":
+                p.append((LifecycleAdapter([n], rd=2, prefix=[("req", 0, "restart")] + [("tick",)] * 4), 5, 60000, 1500))
             if c["kind"] == "application" and not c["system"]:
                 p.append((LifecycleAdapter([n], rd=1, init="running"), 6, 60000, 1500))
         for pr in _pairs(items):
@@ -924,6 +930,9 @@ def plan(tier):
             p.append((LifecycleAdapter([n], rd=1, listener=True, api=False), 2, 2000, 120))
             if c["kind"] == "application" and not c["system"]:
                 p.append((LifecycleAdapter([n], rd=1, init="running"), 3, 4000, 120))
+            if c["kind"] == "service":
+                # start state: the service has been restarted once and is running again (a second timed transition)
+                p.append((LifecycleAdapter([n], rd=2, api=False, prefix=[("req", 0, "restart")] + [("tick",)] * 4), 3, 4000, 120))
         for pr in _pairs(items):
             p.append((LifecycleAdapter(pr, rd=1, init="running"), 2, 2000, 120))
     return p
